@@ -21,6 +21,8 @@ type WorkerSummary struct {
 	Worker      int                       `json:"worker"`
 	Runs        int                       `json:"runs"`
 	Failures    []sim.RunResult           `json:"failures,omitempty"`
+	Known       []sim.RunResult           `json:"known,omitempty"` // first exemplar per known-finding rule
+	KnownCount  map[string]int            `json:"known_count,omitempty"`
 	Harness     []sim.RunResult           `json:"harness_errors,omitempty"`
 	Stats       map[string]int            `json:"stats"`
 	PerScenario map[string]int            `json:"per_scenario"`
@@ -132,13 +134,14 @@ func TestWorker(t *testing.T) {
 		t.Skip("not started by the driver")
 	}
 	out := os.Getenv("VERIF_OUT")
-	runWall := time.Duration(envInt("VERIF_RUN_WALL_S", 60)) * time.Second
+	runWall := time.Duration(envInt("VERIF_RUN_WALL_S", 20)) * time.Second
 
 	var status *os.File
 	if p := os.Getenv("VERIF_STATUS"); p != "" {
 		status, _ = os.OpenFile(p, os.O_CREATE|os.O_WRONLY|os.O_TRUNC, 0o644)
 	}
 	startWatchdog(status)
+	loadKnownRules(prop)
 
 	// ---- replay mode ----
 	if rp := os.Getenv("VERIF_REPLAY"); rp != "" {
@@ -182,7 +185,7 @@ func TestWorker(t *testing.T) {
 			t.Fatalf("unknown scenario %s/%s", rf.Prop, rf.Scenario)
 		}
 		same := func(r sim.RunResult) bool {
-			for _, v := range r.Violations {
+			for _, v := range append(r.Violations, r.KnownHits...) {
 				if v.Rule == rf.Violation.Rule {
 					return true
 				}
@@ -209,7 +212,7 @@ func TestWorker(t *testing.T) {
 		rf.Minimized = true
 		rf.TraceHash = final.TraceHash
 		rf.Trace = final.Trace
-		for _, v := range final.Violations {
+		for _, v := range append(final.Violations, final.KnownHits...) {
 			if v.Rule == rf.Violation.Rule {
 				rf.Violation = v
 				break
@@ -241,6 +244,29 @@ func TestWorker(t *testing.T) {
 		live, _ = os.OpenFile(lp, os.O_CREATE|os.O_WRONLY|os.O_TRUNC, 0o644)
 	}
 
+	if rep := envInt("VERIF_REPEAT", 0); rep > 0 && onlyRun >= 0 {
+		// debugging aid: the same run many times in one process
+		sc := sim.PickScenario(prop, uint64(onlyRun))
+		if onlyScen != "" {
+			sc = sim.Find(prop, onlyScen)
+		}
+		seen := map[string]int{}
+		for i := 0; i < rep; i++ {
+			r := sim.RunOne(t, sc, sim.NewTape(sim.Mix(seed, uint64(onlyRun))), true)
+			if seen[r.TraceHash] == 0 {
+				writeJSON(fmt.Sprintf("%s.%s.trace", out, r.TraceHash), r.Trace)
+			}
+			seen[r.TraceHash]++
+			r2 := sim.RunOne(t, sc, sim.NewReplayTape(r.Decisions), true)
+			if seen["replay:"+r2.TraceHash] == 0 {
+				writeJSON(fmt.Sprintf("%s.replay.%s.trace", out, r2.TraceHash), r2.Trace)
+			}
+			seen["replay:"+r2.TraceHash]++
+		}
+		fmt.Println("distinct traces:", seen)
+		return
+	}
+
 	for k := 0; k < maxRuns; k++ {
 		run := uint64(worker + k*nworkers)
 		if onlyRun >= 0 {
@@ -270,9 +296,14 @@ func TestWorker(t *testing.T) {
 			tape.SetLive(live)
 		}
 		watchdogDeadline.Store(time.Now().Add(runWall).UnixNano())
-		res := sim.RunOne(t, sc, tape, false)
+		res := sim.RunOne(t, sc, tape, onlyRun >= 0 && os.Getenv("VERIF_TRACE") != "")
 		watchdogDeadline.Store(0)
 		res.Seed, res.Run = seed, run
+		if onlyRun >= 0 && os.Getenv("VERIF_TRACE") != "" {
+			for _, l := range res.Trace {
+				fmt.Println(l)
+			}
+		}
 		sum.Runs++
 		sum.PerScenario[sc.Name]++
 		sum.SimTimeS += res.SimTimeS
@@ -297,6 +328,20 @@ func TestWorker(t *testing.T) {
 			sum.Harness = append(sum.Harness, res)
 			break
 		}
+		seenKnown := map[string]bool{}
+		for _, kh := range res.KnownHits {
+			if sum.KnownCount == nil {
+				sum.KnownCount = map[string]int{}
+			}
+			if seenKnown[kh.Rule] {
+				continue
+			}
+			seenKnown[kh.Rule] = true
+			if sum.KnownCount[kh.Rule] == 0 {
+				sum.Known = append(sum.Known, res)
+			}
+			sum.KnownCount[kh.Rule]++
+		}
 		if len(res.Violations) > 0 {
 			sum.Failures = append(sum.Failures, res)
 			break // leaked goroutines may poison the process; stop this worker
@@ -315,6 +360,13 @@ func TestWorker(t *testing.T) {
 			r2 := sim.RunOne(t, sc, sim.NewReplayTape(res.Decisions), false)
 			watchdogDeadline.Store(0)
 			sum.ReplayPairs++
+			if (r2.TraceHash != res.TraceHash || r2.DecHash != res.DecHash) && os.Getenv("VERIF_DIVDUMP") != "" {
+				// debugging aid: re-run both ways with text traces and dump them
+				a := sim.RunOne(t, sc, sim.NewTape(sim.Mix(seed, run)), true)
+				b := sim.RunOne(t, sc, sim.NewReplayTape(res.Decisions), true)
+				writeJSON(fmt.Sprintf("%s/div-%d-a.json", os.Getenv("VERIF_DIVDUMP"), run), a.Trace)
+				writeJSON(fmt.Sprintf("%s/div-%d-b.json", os.Getenv("VERIF_DIVDUMP"), run), b.Trace)
+			}
 			if r2.TraceHash != res.TraceHash || r2.DecHash != res.DecHash {
 				sum.ReplayDiv = append(sum.ReplayDiv, fmt.Sprintf("run %d scenario %s: %s/%s vs %s/%s", run, sc.Name, res.TraceHash, res.DecHash, r2.TraceHash, r2.DecHash))
 			}
@@ -330,6 +382,33 @@ func TestWorker(t *testing.T) {
 	sort.Strings(sum.States)
 	sum.WallS = time.Since(start).Seconds()
 	writeJSON(out, sum)
+}
+
+// loadKnownRules reads the committed known-findings file (never written at
+// run time) and installs the open entries of this property.
+func loadKnownRules(prop string) {
+	p := os.Getenv("VERIF_KNOWN_FILE")
+	if p == "" {
+		return
+	}
+	data, err := os.ReadFile(p)
+	if err != nil {
+		return
+	}
+	var k struct {
+		Findings []struct {
+			Property, Rule, Match, Status string
+		} `json:"findings"`
+	}
+	if json.Unmarshal(data, &k) != nil {
+		return
+	}
+	sim.KnownRules = nil
+	for _, f := range k.Findings {
+		if f.Property == prop && f.Status == "open" {
+			sim.KnownRules = append(sim.KnownRules, sim.KnownRule{Rule: f.Rule, Match: f.Match})
+		}
+	}
 }
 
 func writeJSON(path string, v any) {
